@@ -1,0 +1,1 @@
+//! wire rig (verification scaffolding, cfg(rustdds_verif))
